@@ -2,8 +2,86 @@
 
 from __future__ import annotations
 
-from .common import Check
+import random
+
+from . import qos
+from .common import Check, Diff
+
+CODES_QOS = ("0006", "0404", "0418", "1FC9")
+
+
+def us(t: float) -> int:
+    return round(t * 1_000_000)
+
+
+def need_reply(mode, frame: str, wfr) -> bool:
+    code = frame[37:41]
+    if mode is True:
+        eff = False
+    elif mode is None and code not in CODES_QOS:
+        eff = False
+    else:
+        eff = wfr
+    return bool(eff)
 
 
 def correspond(chk: Check) -> None:
-    chk.notes.append("model correspondence: not yet wired")
+    rnd = random.Random(chk.seed * 104729 + 17)
+    n = 6000 if chk.tier == "thorough" else 400
+    D = Diff(chk)
+    traces = 0
+    for _ in range(n):
+        ep = qos.gen_coarse(rnd)
+        res = qos.run_episode(ep)
+        if res.deadlock:
+            continue
+        evs = []
+        by_pool = {c["cmd"]: i for i, c in enumerate(ep.calls)}
+        for i, c in enumerate(ep.calls):
+            q, r = qos.POOL[c["cmd"]]
+            t0 = res.started.get(i, c["t"])
+            evs.append((us(t0), res.seq.get(i, i), f"{us(t0)}:call:{i}:{c['prio']}:{res.seq.get(i, i)}:{c['max_retries']}:"
+                        f"{need_reply(ep.mode, q, c['wfr']) and r is not None}:{r is not None}:{us(t0) + us(min(c['timeout'], 20.0))}"))
+        k = 100
+        for t, kind, idx in res.pkts:
+            k += 1
+            evs.append((us(t), k, f"{us(t)}:{kind}:{by_pool[idx]}"))
+        for t, kind in res.conn:
+            k += 1
+            evs.append((us(t), k, f"{us(t)}:{kind}"))
+        evs.sort()
+        fails = ",".join(f"{by_pool[c]}/{nn}" for (c, nn), sc in ep.tx.items() if sc["fail"] and c in by_pool)
+        # implementation observables
+        w = ",".join(f"{by_pool[i]}@{us(t)}" for t, fr in res.writes for i in [next((j for j, (q, _) in enumerate(qos.POOL) if q == fr), None)] if i in by_pool)
+        outs = []
+        for i, (t, kind, txt) in sorted(res.outcomes.items(), key=lambda kv: (kv[1][0], kv[0])):
+            q, r = qos.POOL[ep.calls[i]["cmd"]]
+            o = "failed" if kind == "err" else ("reply" if txt == r else "echo")
+            outs.append(f"{i}={o}@{us(t)}")
+        impl = "ok\t" + w + "\t" + ",".join(outs) + "\t" + res.final_state
+        D.add("qos.run", [fails, ";".join(e[2] for e in evs), str(us(60.0))], impl, meta=ep.to_json())
+        traces += 1
+    # canonicalise the order of simultaneous outcomes on both sides
+    bad = _run_sorted(D)
+    chk.extra["traces_validated"] = chk.extra.get("traces_validated", 0) + traces
+    chk.extra["qos_model_traces_divergent"] = bad
+
+
+def _run_sorted(D: Diff) -> int:
+    from .common import Model
+
+    outs = Model().run(D.reqs)
+    bad = 0
+
+    def canon(s: str) -> str:
+        parts = s.split("\t")
+        if len(parts) == 4:
+            parts[2] = ",".join(sorted(parts[2].split(","), key=lambda x: (int(x.split("@")[1]) if "@" in x else 0, x)))
+        return "\t".join(parts)
+
+    for req, a, b, m in zip(D.reqs, D.impl, outs, D.meta):
+        if canon(a) != canon(b):
+            bad += 1
+            D.chk.divergence("qos.run", {"request": req, "episode": m}, a, b)
+    D.chk.extra["model_ops_compared"] = D.chk.extra.get("model_ops_compared", 0) + len(D.reqs)
+    return bad
